@@ -10,7 +10,8 @@
 (*                                                                         *)
 (* One action = one registry entry point = one durable transaction         *)
 (* (UpdateInvoice) plus the notifications sent under the registry lock:    *)
-(*   Notify    NotifyExitHopHtlc for a circuit key not on any invoice      *)
+(*   Notify    NotifyExitHopHtlc for a circuit key not on any invoice,     *)
+(*             including the interceptor client's verdict (cs)             *)
 (*             (a keysend call has two critical sections - KsInsert: the   *)
 (*             just-in-time AddInvoice, NotifyLocked: the update under the *)
 (*             registry lock - between which other calls may run)          *)
@@ -21,7 +22,7 @@
 (*             loop's auto-release timers that are due run cancelSingleHtlc*)
 (*   Block     the chain height the links report grows by one              *)
 (*                                                                         *)
-(* An HTLC is one of five payload classes (pl): "legacy" (no MPP record,    *)
+(* An HTLC is one of five payload classes (pl): "legacy" (no MPP record,   *)
 (* no path id; a total_amount_msat in the payload is ignored), "mpp",      *)
 (* "amp", "keysend", and "blinded": an HTLC that arrived over a blinded    *)
 (* path - it carries the path id (in the place of the payment address) and *)
@@ -44,7 +45,7 @@
 (* HTLC id), two uint64.  The model names the keys of one behaviour 1..NC; *)
 (* `kp` names the pattern of value classes these stand for (KeyOf): plain  *)
 (* confirmed scids with small ids, alias / zero-conf scids (>= 2^63), the  *)
-(* int64 boundary 2^63-1 | 2^63, 2^64-1, HTLC ids >= 2^63, keys that       *)
+(* int64 boundary 2^63-1 | 2^63, 2^64-1, HTLC ids up to 2^63-1, keys that  *)
 (* differ in the channel only or in the id only.  No action reads kp: the  *)
 (* specification says that a circuit key is an opaque identity and that    *)
 (* every state change of an HTLC is durable whatever its key looks like -  *)
@@ -128,18 +129,21 @@ WExternal == "external validation failed"
 (* The circuit-key domain.  chan: "low" a confirmed scid (1:2:3), "i63m" = *)
 (* 2^63-1, "i63" = 2^63, "alias" = an scid of the alias range (block       *)
 (* height 16_000_000, > 2^63), "alias2" another one, "max" = 2^64-1.       *)
-(* id: "n" = the circuit's number, "same" = 7 for every circuit, "i63m" =  *)
-(* 2^63-1, "i63" = 2^63, "i63n" = 2^63 + number, "max" = 2^64-1.           *)
+(* id: "n" = the circuit's number, "same" = 7 for every circuit, "i32n" =  *)
+(* 2^32 + number, "bign" = 2^63-1 - number, "i63m" = 2^63-1.  HTLC ids are *)
+(* per-channel counters (lnwallet ReceiveHTLC accepts an HTLC only with    *)
+(* the id its own counter expects) and the SQL schema holds them as BIGINT:*)
+(* ids >= 2^63 are outside the domain (see O6 at the end of the module).   *)
 (***************************************************************************)
 KeyPatterns == {"plain", "alias", "chanonly", "edge", "bigid", "mixed"}
 KeyOf(pat, c) ==
-  LET K(ch, id) == [ch |-> ch, id |-> id, n |-> IF id \in {"n", "i63n"} THEN c ELSE 0] IN
+  LET K(ch, id) == [ch |-> ch, id |-> id, n |-> IF id \in {"n", "i32n", "bign"} THEN c ELSE 0] IN
   CASE pat = "plain"    -> K("low", "n")
     [] pat = "alias"    -> K("alias", "n")
     [] pat = "chanonly" -> K(CASE c = 1 -> "low" [] c = 2 -> "alias" [] c = 3 -> "i63m" [] OTHER -> "i63", "same")
-    [] pat = "edge"     -> CASE c = 1 -> K("i63m", "n") [] c = 2 -> K("i63", "n") [] c = 3 -> K("max", "n") [] OTHER -> K("max", "max")
-    [] pat = "bigid"    -> CASE c = 1 -> K("low", "i63m") [] c = 2 -> K("low", "i63") [] c = 3 -> K("alias", "i63n") [] OTHER -> K("alias", "max")
-    [] pat = "mixed"    -> CASE c = 1 -> K("alias", "n") [] c = 2 -> K("low", "n") [] c = 3 -> K("alias2", "n") [] OTHER -> K("alias", "i63n")
+    [] pat = "edge"     -> CASE c = 1 -> K("i63m", "n") [] c = 2 -> K("i63", "n") [] c = 3 -> K("max", "n") [] OTHER -> K("max", "i63m")
+    [] pat = "bigid"    -> CASE c = 1 -> K("low", "i63m") [] c = 2 -> K("low", "bign") [] c = 3 -> K("alias", "bign") [] OTHER -> K("alias", "i63m")
+    [] pat = "mixed"    -> CASE c = 1 -> K("alias", "n") [] c = 2 -> K("low", "n") [] c = 3 -> K("alias2", "n") [] OTHER -> K("alias", "i32n")
 KeysDistinct == \A pat \in KeyPatterns : \A c, d \in 1..4 : c # d => KeyOf(pat, c) # KeyOf(pat, d)
 ASSUME KeysDistinct
 
@@ -297,11 +301,11 @@ ApplyCancelSet(i, p, k) ==
        ELSE Out(i1, f1, sub \ nt, timer, setOwner, "fail", WAmpRecon, Msgs(nt, "fail", WAmpRecon))
 
 (***************************************************************************)
-(* The interceptor client answered CancelSet for HTLC p (invoiceregistry.go *)
+(* The interceptor client answered CancelSet for HTLC p (invoiceregistry.go*)
 (* notifyExitHopHtlcLocked, `if cancelSet`): p itself is failed and never  *)
 (* recorded; on an open invoice every accepted HTLC of p's set (non-AMP:   *)
 (* all HTLCs of the invoice, AMP: the set id) is canceled by a             *)
-(* CancelHTLCsUpdate (cancelHTLCs; AMP: cancelHtlcsAmp lowers AmtPaid), the *)
+(* CancelHTLCsUpdate (cancelHTLCs; AMP: cancelHtlcsAmp lowers AmtPaid); the*)
 (* invoice stays open, and - "external validation failed" being a set      *)
 (* failure - the subscribed links of the canceled HTLCs are told.          *)
 (***************************************************************************)
@@ -430,7 +434,7 @@ Block == /\ height < MaxHeight /\ pend = {}
 (* matching / mismatching / too low, right / other / nobody's / no         *)
 (* address, expiry at the required margin -1 / 0 / +1 (AMP: -1 / 0, totals *)
 (* V and V+1, both sets, good and bad shares) or already below the current *)
-(* height, keysend with a good or bad preimage.  AMP / keysend payloads     *)
+(* height, keysend with a good or bad preimage.  AMP / keysend payloads    *)
 (* only when such an invoice exists.                                       *)
 \* expiries: the required margin -1 / 0 / +1, and HTLCs that have ALREADY expired (re-forwarded after
 \* downtime, or a malicious peer): one block, ten blocks and far below the current height
@@ -587,8 +591,14 @@ TypeOK == /\ \A k \in Inv : inv[k].st \in {"open", "accepted", "settled", "cance
 (*  O3  KV and SQL answer differently (both fail) for an MPP HTLC whose    *)
 (*      payment address is indexed for no invoice: RefSQLDiffers.          *)
 (*  O4  a keysend call is two critical sections: KsInsert / NotifyLocked.  *)
-(*  O5  the interceptor client's CancelSet is honoured on an open invoice   *)
-(*      only (otherwise the HTLC fails with "invoice no longer open") and   *)
-(*      is ignored for a replayed HTLC (Replay does not look at cs).        *)
+(*  O5  the interceptor client's CancelSet is honoured on an open invoice  *)
+(*      only (otherwise the HTLC fails with "invoice no longer open") and  *)
+(*      is ignored for a replayed HTLC (Replay does not look at cs).       *)
+(*  O6  HTLC ids >= 2^63 (not reachable through a link, see KeyOf): the SQL*)
+(*      store writes int64(id) without a check (sqlInvoiceUpdater.AddHtlc) *)
+(*      and refuses to read a negative id back (unmarshalInvoiceHTLC:      *)
+(*      "invalid uint64 value"), so such an HTLC would leave its invoice   *)
+(*      unreadable; the KV store handles the full uint64 range.  Observed  *)
+(*      with the first version of the key patterns; ids are now < 2^63.    *)
 (***************************************************************************)
 =============================================================================
